@@ -45,6 +45,9 @@ type program struct {
 	workers int
 	roots   int
 	src     string
+	// seedFull: start from a stored state with one full, rotated-out directory (100 files, keys
+	// s000…s099; program key "z" is s000) and a second directory holding one file
+	seedFull bool
 }
 
 func parseSteps(s string) []step {
@@ -83,6 +86,8 @@ func parse(p string) *program {
 				fmt.Sscan(kv[2:], &pr.workers)
 			case strings.HasPrefix(kv, "r="):
 				fmt.Sscan(kv[2:], &pr.roots)
+			case kv == "seed=full":
+				pr.seedFull = true
 			}
 		}
 		p = p[:i]
@@ -113,7 +118,7 @@ func parse(p string) *program {
 	for _, t := range pr.threads {
 		note(t)
 	}
-	for _, k := range []string{"a", "b", "c"} {
+	for _, k := range []string{"a", "b", "c", "z"} {
 		if keys[k] {
 			pr.keys = append(pr.keys, k)
 		}
@@ -172,7 +177,45 @@ func valueID(b []byte) int {
 
 const valLen = 8
 
+// realKey maps the program's key letters to stored keys.
+func realKey(k string) string {
+	if k == "z" {
+		return "s000"
+	}
+	return k
+}
+
+var fullSeed *dbh.Snapshot
+
+// restoreFullSeed builds (once per process) and restores the state with a full rotated-out directory.
+func restoreFullSeed(spec dbh.Spec) error {
+	if fullSeed == nil {
+		dbh.FreshWorld()
+		in, err := dbh.Open(spec)
+		if err != nil {
+			return err
+		}
+		for i := 0; i <= 100; i++ {
+			if err := in.DB.Set(context.Background(), fmt.Sprintf("s%03d", i), dbh.Content(2000+i, valLen)); err != nil {
+				return err
+			}
+		}
+		vrt.Quiesce()
+		if err := in.Close(); err != nil {
+			return err
+		}
+		vrt.Quiesce()
+		sn, err := dbh.TakeSnapshot([]string{in.DBPath}, 1<<20)
+		if err != nil {
+			return err
+		}
+		fullSeed = sn
+	}
+	return fullSeed.Restore()
+}
+
 func (r *run) exec(thread int, idx int, st step) {
+	st.key = realKey(st.key)
 	id := (thread+1)*100 + idx + 1
 	op := lin.Op{Thread: thread, Key: st.key, Actor: model.Auto, ValID: id}
 	var store fs_db.Store = r.in.DB
@@ -236,6 +279,18 @@ func (r *run) exec(thread int, idx int, st step) {
 		op.Kind = lin.GetKeys
 		ks, err := store.GetKeys(r.ctx)
 		op.ObsErr = dbh.Class(err)
+		if r.pr.seedFull {
+			// the seeded state holds a hundred keys the program does not touch: keep the program's own
+			var own []string
+			for _, k := range ks {
+				for _, pk := range r.pr.keys {
+					if realKey(pk) == k {
+						own = append(own, k)
+					}
+				}
+			}
+			ks = own
+		}
 		op.ObsKeys = ks
 	case 'b':
 		op.Kind = lin.Begin
@@ -258,12 +313,24 @@ func (r *run) exec(thread int, idx int, st step) {
 // Body builds the scenario body for a program.
 func (pr *program) body() (string, string) {
 	vrt.SetBranching(false)
-	dbh.FreshWorld()
-	in, err := dbh.Open(dbh.Spec{Roots: pr.roots, MaxDirCount: 100, Workers: pr.workers})
+	spec := dbh.Spec{Roots: pr.roots, MaxDirCount: 100, Workers: pr.workers}
+	if pr.seedFull {
+		if err := restoreFullSeed(spec); err != nil {
+			return "infra: seed: " + err.Error(), ""
+		}
+	} else {
+		dbh.FreshWorld()
+	}
+	in, err := dbh.Open(spec)
 	if err != nil {
 		return "infra: open: " + err.Error(), ""
 	}
 	r := &run{pr: pr, in: in, rec: &recorder{}, tx: make([]fs_db.Tx, pr.slots), ctx: context.Background()}
+	if pr.seedFull {
+		// the stored value of s000 is part of the history the model starts from
+		c := r.rec.tick()
+		r.rec.add(lin.Op{Call: c, Ret: r.rec.tick(), Thread: -1, Kind: lin.Set, Actor: model.Auto, Key: "s000", ValID: 2000})
+	}
 	for i, st := range pr.init {
 		r.exec(-1, i, st)
 	}
@@ -288,6 +355,7 @@ func (pr *program) body() (string, string) {
 	for i, k := range pr.keys {
 		r.exec(fin, i, step{kind: 'G', key: k})
 	}
+	_ = realKey
 	r.exec(fin, len(pr.keys), step{kind: 'K'})
 	if err := in.Close(); err != nil {
 		return "close-error: " + err.Error(), ""
